@@ -35,16 +35,16 @@ P = {
         text="Decides that ambient state (clock, environment, absolute locations, platform data, implicit clocks of library calls, directory and hash order) can reach generated text only under the auditing guard: every such read in the package and every tainted expression in the 40 built-in templates must be guarded or be a classified site whose structural justification is re-checked each run; unclassified sites are violations. Byte identity of two runs is declined (relation between executions).",
         note="Trusted: CPython ast, bundled Jinja parser. pydsdl internals beyond the listed axioms are not analysed.", ref="4/C07"),
     "C08": dict(
-        tech="effect analysis over the call graph (file-system effects control-dependent on not is_dryrun) + sibling cross-check of listing vs generating entry points",
-        text="Decides: every file-system effect reachable from generate_all is control-dependent on `not is_dryrun`; constructors run before listing contain no effect; _list_outputs_only and _generate call the generators under the same conditions with the same output-determining arguments; listing passes is_dryrun=True. Equality of the printed list with a real run's files is declined (two runs).",
+        tech="effect analysis over the call graph (file-system effects control-dependent on not is_dryrun, mode forwarded unmodified through helper methods) + sibling cross-check of listing vs generating entry points + completeness/injectivity rules on the template enumeration",
+        text="Decides: every file-system effect reachable from generate_all is control-dependent on `not is_dryrun`; a function that receives is_dryrun forwards its own parameter; constructors run before listing contain no effect; _list_outputs_only and _generate reach the generators (directly or through private helpers, parameters bound) under the same conditions with the same output-determining arguments and listing passes is_dryrun=True; DSDLTemplateLoader.get_templates accumulates, unconditionally and injectively, every file of a recursive glob over every search path and every package template; the support generator reads exactly the resources its listing names and resolves each through the loader that renders it; every file a built-in template pulls in can be named by the enumeration. Equality of the printed list with a real run's files is declined (two runs).",
         note="Trusted: CPython ast; callee resolution is the engine's own (self./cls./import resolution + name-based fallback).", ref="4/C08"),
     "C09": dict(
-        tech="must-pass-through on TokenEncoder.strop + regex-AST reasoning over properties.yaml (alphabet coverage, FIRST sets, keyword tables)",
-        text="Decides: no return of strop skips the three dry-run re-verifications; transformations change the token only on a match; strop's call graph is free of ambient reads; for each built-in language the encoding rules cover the complement of the identifier alphabet, encoded/stropped images stay inside it, reserved lists contain the ISO keyword tables. Validity for every unicode string as a value-level claim is declined.",
+        tech="must-pass-through on TokenEncoder.strop over verification sites (direct or through private helpers) + regex-AST reasoning over properties.yaml (alphabet coverage, FIRST sets, keyword tables) + constant folding of the Python reserved list",
+        text="Decides: no return of strop skips the three dry-run re-verifications, each of which re-raises or replaces the token through the failure handler; transformations change the token only on a match and a match in dry-run mode raises; the encoded token is written only by the token parameter or the match-callback substitution and the callback never returns an empty replacement; strop's call graph is free of ambient reads; for each built-in language the encoding rules cover the complement of the identifier alphabet, encoded/stropped images stay inside it, reserved lists contain the ISO keyword tables, Python's list folds to keyword.kwlist plus the names of the builtins module, and the failure handlers have the shape `_` + lower-cased letter + rest. Validity for every unicode string as a value-level claim is declined.",
         note="Trusted: re._parser regex ASTs; embedded C11/C++20 keyword tables; Python keyword/builtins modules.", ref="4/C09"),
     "C10": dict(
         tech="state inventory (module globals, class attributes, caches, shared-instance attributes written in the per-file call graph) with reset-dominance / pure-memo classification",
-        text="Decides: every piece of state that outlives one generated file and is written inside the per-file call graph is reset unconditionally at the per-file entry, or is a memo keyed by all its inputs, or never reaches text; each type is rendered with a fresh context and templates do not write shared namespaces. Byte-equality alone-vs-together is declined.",
+        text="Decides: every piece of state that outlives one generated file and is written inside the per-file call graph is reset unconditionally at the per-file entry, or is a memo keyed by all its inputs whose entries are functions of their key, or never reaches text; filters that touch the per-file name counters cannot be constant-folded at template compile time (attribute set read from the bundled jinja2); compiled templates stay in a per-generator environment; each type is rendered with a fresh context and templates do not write shared namespaces. Byte-equality alone-vs-together is declined.",
         note="Trusted: CPython ast; engine call graph.", ref="4/C10"),
     "C11": dict(
         tech="who-may-construct / who-may-write ownership rules and argument-provenance (data-flow by parameter position, no source-text matching) over the Python AST",
@@ -63,28 +63,28 @@ P = {
         text="Decides for the C and C++ support headers: every store into a caller's buffer by a set primitive is dominated by a size-vs-(offset+length) comparison that returns the buffer-too-small error and covers the stored extent (wrappers pass buffer/size/offset through unchanged); every read uses a length saturated against the primitive's own size/offset (or copyTo's clamp) and lands in a zero-initialised local large enough for it; the saturation constant, local capacity, return type and name agree on W, getI<W> delegates to getU<W>, shifted literals are wide enough; remaining-bits subtractions cannot wrap; partial-byte stores in the raw copy are masked read-modify-writes and whole-byte moves cover floor(len/8) bytes; endianness-neutral byte tables follow wire order; bitspan::setZeros clears ceil((offset%8+len)/8) bytes and preserves the bits below the offset; the four getI widths are one routine up to W; C and C++ float16 pack/unpack are the same computation. Bit-exact results for all offsets/lengths/values and float16 rounding quality are declined (numerical; exhaustive enumeration is a dynamic technique); the Python support module is not claimed.",
         note="Trusted: clang 14 parser/JSON dump; expansion of the support template by the repository's own generator is a build step (no DSDL type, nothing compiled to an executable or run).", ref="4/C14"),
     "C15": dict(
-        tech="driver-shape rules, regex width analysis of the terminator pattern, return-value provenance of the line post-processors",
-        text="Decides: every completed line and the final remainder reach _filter_and_write_line which applies all processors in order; a multi-character terminator must be searched across the carried buffer; TrimTrailingWhitespace returns the input terminator and a prefix of the line; LimitEmptyLines returns its argument or the elision tuple only for empty lines; the header copier does not drop characters. Equivalence for all texts and chunk schedules is declined.",
+        tech="driver model (carriers, terminator recogniser, scanned text) extracted from the line splitter, regex-language computation over the terminator pattern's AST, per-execution-path contracts of the line post-processors with counter replay",
+        text="Decides: every completed line and the non-empty final remainder reach _filter_and_write_line, which applies all processors in list order and writes line then terminator; the splitter recognises exactly LF and CRLF (regex language; str.splitlines is rejected) and either scans carried text plus chunk or re-joins a terminator cut at a chunk boundary; no chunk text is dropped between chunks; on every path TrimTrailingWhitespace keeps the terminator and returns the line cut at an end-anchored all-whitespace match (or rstrip()), unchanged only where no trailing whitespace exists; on every path LimitEmptyLines zeroes its counter and passes a non-empty line, counts an empty line once and elides it exactly when the count exceeds N; the header copier does not drop characters. Equivalence for all texts and chunk schedules is declined.",
         note="Trusted: CPython ast, re._parser.", ref="4/C15"),
     "C16": dict(
         tech="ordering and who-may-write rules on the loader and environment (precedence, guarded insertion of user names, test table construction)",
-        text="Decides: file-system loader is consulted before the package loader on every path; ancestor search starts at the class and enqueues __bases__; user filters/tests enter only through _add_to_environment which raises on collisions; user globals are checked against every existing global and are not overwritten later; class-name tests and aliases are bound to one predicate and aliases do not collide. The resolution function over all histories is declined.",
+        text="Decides: file-system loader is consulted before the package loader on every path (straight-line or loop form) and the package listing only when the first search found nothing; ancestor search starts at the class, is FIFO over __bases__ and matches a class to the template carrying its own name; the class -> template memo is filled only for the class whose own name selected the template; user filters/tests enter only through _add_to_environment which raises on collisions; user globals are checked against every existing global and are not overwritten later; class-name tests and aliases are bound to one predicate, an alias drops a Type/Field suffix only when the name ends with it and something is left, and aliases do not collide. The resolution function over all histories is declined.",
         note="Trusted: CPython ast; pydsdl class hierarchy for the alias table.", ref="4/C16"),
     "C17": dict(
         tech="sibling agreement between support-header option definitions and type-header option assertions (unfiltered iteration, same name/value transformations) + value-type exhaustiveness",
-        text="Decides: both sides iterate options.items() unfiltered and use the same name and value transformations; to_static_assertion_value handles every value type occurring in properties.yaml options and fails otherwise; assertions are emitted exactly when the support header is included. The compiler's rejection itself is declined.",
+        text="Decides: both sides iterate options.items() unfiltered and use the same name and value transformations (string building normalised); to_static_assertion_value handles every value type occurring in properties.yaml options and fails otherwise; documented string choices map to distinct constants and no per-language validation hook stores a fixed value over a configured option; assertions are emitted exactly when the support header is included and outside any further preprocessor conditional. The compiler's rejection itself is declined.",
         note="Trusted: bundled Jinja parser, PyYAML.", ref="4/C17"),
     "C18": dict(
         tech="dominance rules on the Python data-object template (admission check dominates backing-field assignment; union exclusivity loops)",
-        text="Decides on every path of py/templates/base.j2: each setter's assignment to the backing field is dominated by the kind's admission check with ValueError on the other branch; __init__ routes through setters; union setters clear every other option over the unfiltered field list and only after the new value passed validation; update_from_builtin / _to_builtin_impl walk the unfiltered field list, skip a field only when the source has no entry for it, apply every kind and reject leftovers; the pickled model is the generating type and _restore_constant_ inverts filter_pickle's layers. Run-time object round trips are declined.",
+        text="Decides on every rendered path of py/templates/base.j2: each setter's assignment to the backing field is dominated by the kind's admission check with ValueError on the other branch; assign_array compares the length with == on fixed and <= on variable array paths, its zero-copy buffer path admits only bytes/bytearray and 8-bit elements, and a str is encoded only for string_like arrays; __init__ routes through setters; union setters clear every other option over the unfiltered field list and only after the new value passed validation; update_from_builtin / _to_builtin_impl walk the unfiltered field list, skip a field only when the source has no entry for it, apply every kind, reject leftovers, and produce a str only where the model is string_like; the pickled model is the generating type and _restore_constant_ inverts filter_pickle's layers. Run-time object round trips are declined.",
         note="Trusted: bundled Jinja parser; Python text in templates is tokenised line-wise.", ref="4/C18"),
     "C19": dict(
         tech="confinement of the lexer/parser modifications: regex-AST rule on lexer alternatives, guard rule on autoindent(), shape rule on the extensions",
-        text="Decides that Nunavut's modifications cannot be reached by input without the marker: every non-stock lexer alternative requires a literal `*` after the start string; the unmarked alternative of every block opener (raw, endraw, <tag>_begin) is built on the same lstrip-aware prefix expression; autoindent() is called only under token.value.endswith('*'); lineprefix nodes are built only there; assert/ifuses produce ordinary conditionals. Output equivalence with upstream on all templates is declined (upstream snapshot unavailable offline).",
+        text="Decides that Nunavut's modifications cannot be reached by input without the marker: every non-stock lexer alternative requires a literal `*` after the start string; the unmarked alternative of every block opener is built on the same lstrip-aware prefix expression; the lexer cache key covers every environment attribute the Lexer constructor reads; autoindent() is called only under the marker test; lineprefix nodes are built only there, a single node is appended and a node list spliced as in stock; do_lineprefix keeps Markup values Markup and leaves empty lines unprefixed; assert/ifuses produce ordinary conditionals. Output equivalence with upstream on all templates is declined (upstream snapshot unavailable offline).",
         note="Trusted: CPython ast, re._parser.", ref="4/C19"),
     "C20": dict(
-        tech="taint + guard analysis of HTML templates (autoescape resolution, escape on every DSDL free-text sink), per-block tag balance, anchor sibling agreement",
-        text="Decides: where autoescaping is off for a template, every output of DSDL free text passes through an escaping filter and markup-returning filters escape what they interpolate; static markup of each Jinja block is balanced; url_from_type and tag_id build the same anchor; the link does not hard-code the namespace page name, is prefixed by the depth of the containing page, and sends a service's request/response to the service's own entry. Well-formedness of complete pages is declined.",
+        tech="taint + guard analysis of HTML templates (autoescape resolution, escape on every DSDL free-text sink and preserved by later filters), per-block tag balance, symbolic string agreement of the anchor/url filters, link rule on rendered text paths",
+        text="Decides: where autoescaping is off for a template, every output of DSDL free text passes through an escaping filter that no later filter undoes (striptags decodes entities) and markup-returning filters escape what they interpolate; static markup of each Jinja block is balanced; url_from_type and tag_id evaluate to the same anchor string (format / f-string / helper spellings alike); the link does not hard-code the namespace page name; on every rendered path an href derived from url_from_type is exactly <depth prefix of the containing page><url>; a service's request/response link to the service's own entry. Well-formedness of complete pages is declined.",
         note="Trusted: bundled Jinja parser, html.parser tokenizer for static markup.", ref="4/C20"),
 }
 
